@@ -122,6 +122,14 @@ func genC04(e *emitter, tier string, seed int64) {
 			emitProg(e, "p("+v+" in "+w+")\n", pt, true, "in")
 		}
 	}
+	// ---- literals (empty ones too) copied into the point are snapshots of exactly their elements; an empty
+	// list is an empty list wherever it came from ----
+	for _, v := range []string{"[]", `[[], 1, {"k": []}]`, "{}", `{"a": {}, "b": []}`, "[{}]", "[nil]", "[[]]", `[[[]], ""]`} {
+		emitProg(e, "add_key(k, "+v+")\nx = "+v+"\nadd_key(k2, x)\nset_tag(t, "+v+")\nstrfmt(out, \"%v|%v\", "+v+", x)\np(get_key(k), get_key(k2), get_key(t), get_key(out))\n", pt, true, "literal-snapshot")
+		for _, w := range []string{"[l[3:]]", `[load_json("[]")]`, "[[]]", `[load_json("{}")]`, "[{}]", "[l[0:0], 1]", `load_json("[[], {}]")`, "[s[5:]]"} {
+			emitProg(e, "l = [1, 2]\ns = \"ab\"\np("+v+" in "+w+")\n", pt, true, "literal-snapshot")
+		}
+	}
 	// ---- two decodings of the same JSON text are independent objects; a key holding nil is a member ----
 	for _, src := range []string{
 		"t = \"[1, [2, 3], {\\\"k\\\": 4}]\"\na = load_json(t)\nb = load_json(t)\na[0] = \"changed\"\na[1][0] = 9\np(a, b)\nc = load_json(t)\np(c)\n",
